@@ -47,6 +47,13 @@ FLAVOURS = {
         "common": ["-std=c++14", "-gline-tables-only", "-fno-omit-frame-pointer", "-fsanitize=fuzzer,address,undefined", "-fno-sanitize-recover=all",
                    "-fno-sanitize=nonnull-attribute", "-Wno-everything", "-ferror-limit=8"],
         "link": ["-fsanitize=fuzzer,address,undefined", "-lpthread"]}),
+    # second compiler for the stages that are cheap to repeat: overload resolution, list-initialization and constant evaluation differ between
+    # g++ and clang++ in corners a property can depend on (e.g. T{x} for a type with an initializer_list<T> constructor)
+    "gasan": (GXX, {
+        "quick": ["-O0"], "thorough": ["-O1"],
+        "common": ["-std=c++14", "-g1", "-fno-omit-frame-pointer", "-fsanitize=address,undefined", "-fno-sanitize-recover=all",
+                   "-fno-sanitize=nonnull-attribute", "-w", "-fmax-errors=8"],
+        "link": ["-fsanitize=address,undefined", "-lpthread"]}),
     "plain": (GXX, {
         "quick": ["-O2"], "thorough": ["-O2"],
         "common": ["-std=c++14", "-w", "-fmax-errors=8"],
@@ -317,6 +324,47 @@ def run_worker(binary, argv, env, outdir, i, timeout):
     return i, rc, timed_out, time.time() - t0
 
 
+def run_second_build_stage(cfg, prop, tier, seed, sources, gen_dirs, base, env, outdir, viols, counters, harness_problems):
+    """Repeat part of the workload (cfg["second_build"] = {"flavour", "only_type"}) with the same sources built by another compiler."""
+    sb = cfg["second_build"]
+    try:
+        binary, binfo = build_engine(cfg["engine"], sb["flavour"], tier, sources, list(cfg.get("flags", [])), gen_dirs)
+    except BuildViolation as bv:
+        e = viols.setdefault("gxx:" + bv.key, {"key": "gxx:" + bv.key, "what": "second compiler (%s): %s" % (sb["flavour"], bv.key), "count": 0, "replay": ""})
+        e["count"] += 1
+        return
+    sdir = os.path.join(outdir, "second-build")
+    os.makedirs(sdir, exist_ok=True)
+    sargs = list(base) + ["--worker", "0/1", "--only-type", sb["only_type"]]
+    sargs[sargs.index("--out") + 1] = sdir
+    _, rc, to, dt = run_worker(binary, sargs, env, sdir, 0, cfg.get("second_build_timeout", 900))
+    wj = os.path.join(sdir, "worker-0.json")
+    if to:
+        harness_problems.append("second-build stage hit its watchdog (inconclusive)")
+        return
+    if os.path.exists(wj):
+        w = json.load(open(wj))
+        for k, v in w["counters"].items():
+            counters["second_compiler_" + k] = counters.get("second_compiler_" + k, 0) + v
+        for v in w["violations"]:
+            key = "gxx:" + v["key"]
+            e = viols.setdefault(key, {"key": key, "what": "built with g++: " + v["what"], "count": 0, "replay": v["replay"]})
+            e["count"] += v["count"]
+    if rc not in (0, 1) or not os.path.exists(wj):
+        stderr_txt = open(os.path.join(sdir, "worker-0.stderr"), errors="replace").read()
+        skey = sanitizer_key(stderr_txt)
+        cp = os.path.join(sdir, "worker-0.current")
+        cur = open(cp, errors="replace").read().strip() if os.path.exists(cp) else ""
+        if skey or cur:
+            key = "gxx:" + (skey or ("crash:rc%d" % rc))
+            rp = os.path.join(outdir, "replay-%s-second-build-crash.json" % prop)
+            json.dump({"property": prop, "key": key, "what": "second-compiler build aborted (rc=%d)" % rc, "case": cur, "report": stderr_txt[-12000:]}, open(rp, "w"), indent=1)
+            e = viols.setdefault(key, {"key": key, "what": "built with g++: abnormal exit rc=%d: %s" % (rc, skey or "crash"), "count": 0, "replay": rp})
+            e["count"] += 1
+        else:
+            harness_problems.append("second-build stage exited rc=%d without a case in flight:\n%s" % (rc, stderr_txt[-2000:]))
+
+
 def run_fuzz_stage(cfg, prop, tier, seed, gen_sources, gen_dirs, engine_binary, env, outdir, viols, counters, harness_problems, artifact=None):
     """libFuzzer stage (thorough tier of C02 / C04): coverage-guided inputs through the same monitored decode."""
     engine = cfg["engine"]
@@ -539,6 +587,8 @@ def run_check(cfg, prop, tier, seed, workers, replay=None, keep=False):
             e["count"] += 1
         else:
             harness_problems.append("worker %d exited rc=%d without a case in flight:\n%s" % (i, rc, stderr_txt[-3000:]))
+    if cfg.get("second_build") and not replay and not fuzz_only:
+        run_second_build_stage(cfg, prop, tier, seed, sources, gen_dirs, base, env, outdir, viols, counters, harness_problems)
     if cfg.get("fuzz") and tier == "thorough" and not replay and not viols:
         run_fuzz_stage(cfg, prop, tier, seed, gen_sources, gen_dirs, binary, env, outdir, viols, counters, harness_problems)
     # TSan logs
